@@ -83,6 +83,8 @@ type c11Case struct {
 	// graph family: representation of the state.  "" = *struct; the others are NON-pointer types whose
 	// values share storage: mapint = map[string]int, mapany = map[string]any, box = struct value holding a slice
 	StateType string `json:"stateType,omitempty"`
+	// late family: the closure that keeps a handler's context (c11_late.go)
+	Late *c11Late `json:"late,omitempty"`
 }
 
 // ---------- observations (child → parent) ----------
@@ -125,6 +127,7 @@ type c11RunObs struct {
 	Ints       []c11IntObs            `json:"ints,omitempty"`     // resume family: every interrupt of the run
 	Overlaps   int                    `json:"overlaps,omitempty"` // eager family: state operations that started while another one was inside
 	Barrier    string                 `json:"barrier,omitempty"`  // eager family: how the forced schedule went
+	LateCalls  int                    `json:"lateCalls,omitempty"` // late family: closure calls that ran to their end
 }
 
 type c11CaseObs struct {
@@ -1086,6 +1089,9 @@ func c11Batch(ctx *vh.Ctx, cases []*c11Case, tag string) error {
 	t0 := time.Now()
 	obs, races, crash := c11RunChild(ctx, cases, tag)
 	c11ChildTime += time.Since(t0)
+	fam := strings.TrimRight(tag, "0123456789")
+	c11FamTime[fam] += time.Since(t0)
+	ctx.Res.Extra["child_s:"+fam] = c11FamTime[fam].Seconds()
 	defer func(t1 time.Time) {
 		c11CompareTime += time.Since(t1)
 		ctx.Res.Extra["child_s"] = c11ChildTime.Seconds()
@@ -1107,7 +1113,9 @@ func c11Batch(ctx *vh.Ctx, cases []*c11Case, tag string) error {
 			}
 			continue
 		}
-		if c.Kind == "paths" {
+		if c.Kind == "late" {
+			c11LateAccount(ctx, c)
+		} else if c.Kind == "paths" {
 			c11PathsAccount(ctx, c)
 		} else if c.Kind == "resume" || c.Kind == "eager" {
 			c11ResumeAccount(ctx, c)
@@ -1139,6 +1147,8 @@ func c11Batch(ctx *vh.Ctx, cases []*c11Case, tag string) error {
 			err = c11EagerCompare(ctx, c, o)
 		case "paths":
 			err = c11PathsCompare(ctx, c, o)
+		case "late":
+			err = c11LateCompare(ctx, c, o)
 		default:
 			err = c11Compare(ctx, c, o)
 		}
@@ -1153,6 +1163,7 @@ func c11Batch(ctx *vh.Ctx, cases []*c11Case, tag string) error {
 }
 
 var c11ChildTime, c11CompareTime time.Duration
+var c11FamTime = map[string]time.Duration{}
 
 func c11MisuseCases() []*c11Case {
 	var out []*c11Case
@@ -1166,7 +1177,7 @@ func runC11(ctx *vh.Ctx) error {
 	if in := os.Getenv("VH_C11_CHILD_IN"); in != "" {
 		return c11ChildMain(in, os.Getenv("VH_C11_CHILD_OUT"))
 	}
-	ctx.Res.Rule = "stateful compose graphs (Pregel / DAG / Workflow, 1-2 layers of 2-6 parallel branches of 1-2 nodes closed by join nodes, nested stateful and stateless sub-graphs, plain and stream pre/post handlers, ProcessState increments and stamps in node bodies) run 1-8 times concurrently, optionally interrupted (before/after nodes) and resumed with a StateModifier; resume family: sequential nests of 1-5 graph levels (each with or without own state) interrupted 1-3 times before/after nodes of any level or by InterruptAndRerun through a bytes-only checkpoint store and resumed with and without a StateModifier, Invoke and Stream, compared with the level-by-level resume model and the uninterrupted reference; eager family: stateful Workflows (top-level or nested) whose resume restores 2-4 tasks that run in parallel, one held inside a ProcessState callback by barriers while a successor created after the resume touches the state (overlap detector, N increments give N, race detector); paths family: nests up to node-path length 5 (every inner level [head] -> 1-3 sibling sub-graphs in parallel -> join, leaf levels chains with interrupt points, levels with and without own state) in which several sibling graphs interrupt at the same time, resumed with a StateModifier that dispatches on the NodePath it is called with (a different amount per graph level) and records every call: compared with nestLevels/modCalls/resumeNest (one call per restored level that has a state, with that level's own path and state; resumed state = checkpointed state modified for that path); graph family also with NON-pointer state types whose values share storage (map[string]int, map[string]any, struct value holding a slice) under an overlap detector (no state operation may start while another is inside its user code on the same object); non-trivial = at least two parallel branches and a state object / an interrupt inside a nested level or a single level / every eager case; distinct by (modes+statefulness of all graphs, node count, paradigm, runs, interrupt shape, micro seed class)"
+	ctx.Res.Rule = "stateful compose graphs (Pregel / DAG / Workflow, 1-2 layers of 2-6 parallel branches of 1-2 nodes closed by join nodes, nested stateful and stateless sub-graphs, plain and stream pre/post handlers, ProcessState increments and stamps in node bodies) run 1-8 times concurrently, optionally interrupted (before/after nodes) and resumed with a StateModifier; resume family: sequential nests of 1-5 graph levels (each with or without own state) interrupted 1-3 times before/after nodes of any level or by InterruptAndRerun through a bytes-only checkpoint store and resumed with and without a StateModifier, Invoke and Stream, compared with the level-by-level resume model and the uninterrupted reference; eager family: stateful Workflows (top-level or nested) whose resume restores 2-4 tasks that run in parallel, one held inside a ProcessState callback by barriers while a successor created after the resume touches the state (overlap detector, N increments give N, race detector); paths family: nests up to node-path length 5 (every inner level [head] -> 1-3 sibling sub-graphs in parallel -> join, leaf levels chains with interrupt points, levels with and without own state) in which several sibling graphs interrupt at the same time, resumed with a StateModifier that dispatches on the NodePath it is called with (a different amount per graph level) and records every call: compared with nestLevels/modCalls/resumeNest (one call per restored level that has a state, with that level's own path and state; resumed state = checkpointed state modified for that path); late family: stateful eager Workflows (top-level or nested) START -> [head ->] a -> c, START -> b, side nodes, in which a user function of a (plain or stream pre-/post-handler, or a ProcessState callback of its body) creates a closure that keeps the context it was given and calls ProcessState with it after that user function has returned — the per-chunk converter of the stream a stream handler returns (run by whoever consumes the stream: the node itself, its successor, the engine concatenating on the run-loop goroutine) or a goroutine started inside the user function —, forced by barriers to call while sibling b is inside a ProcessState callback or its post-handler (overlap detector on every state operation, N increments give N, every operation in the state log, race detector), Invoke and Stream, compared with runK under lateGuard (every ProcessState call takes the lock whatever context it is called with); graph family also with NON-pointer state types whose values share storage (map[string]int, map[string]any, struct value holding a slice) under an overlap detector (no state operation may start while another is inside its user code on the same object); non-trivial = at least two parallel branches and a state object / an interrupt inside a nested level or a single level / every eager case; distinct by (modes+statefulness of all graphs, node count, paradigm, runs, interrupt shape, micro seed class)"
 	if !c11IsRaceBuild() {
 		ctx.Res.Note("harness binary built without -race: data races are not observed in this run")
 	} else {
@@ -1187,7 +1198,7 @@ func runC11(ctx *vh.Ctx) error {
 	// three families, interleaved chunk by chunk so that a budget cut-off starves none of them:
 	// sequential nests interrupted at any level (resume), eager Workflows resuming several
 	// restored tasks in parallel (eager), parallel stateful graphs (graph)
-	nChain, nEager, nPaths := ctx.N(150, 900), ctx.N(54, 300), ctx.N(120, 800)
+	nChain, nEager, nPaths, nLate := ctx.N(150, 900), ctx.N(54, 300), ctx.N(120, 800), ctx.N(64, 400)
 	fams := []struct {
 		name     string
 		n, chunk int
@@ -1195,6 +1206,7 @@ func runC11(ctx *vh.Ctx) error {
 		done     int
 	}{
 		{"chain", nChain, 50, func() *c11Case { return c11GenChain(ctx.Rng, quick) }, 0},
+		{"late", nLate, 16, func() *c11Case { return c11GenLate(ctx.Rng, quick) }, 0},
 		{"eager", nEager, 18, func() *c11Case { return c11GenEager(ctx.Rng, quick) }, 0},
 		{"paths", nPaths, 40, func() *c11Case { return c11GenPaths(ctx.Rng, quick) }, 0},
 		{"graph", n, 35, func() *c11Case { return c11Gen(ctx.Rng, quick) }, 0},
